@@ -109,7 +109,8 @@ var c14Codec = probe.Define("C14", "codec", func(t *rapid.T) c14In {
 		return probe.Fail("encoded size %d, expected %d", len(w), model.EAPSize(e))
 	}
 	back := new(eap.EAP)
-	if err := probe.Try(func() error { return back.Unmarshal(probe.Exact(w)) }); err != nil {
+	rx := probe.Exact(w) // the receive buffer; overwritten below
+	if err := probe.Try(func() error { return back.Unmarshal(rx) }); err != nil {
 		return probe.Fail("Unmarshal of the encoding: %v", err)
 	}
 	got, err := bridge.FromLibEAP(back) // reads every attribute through GetAttr(t).GetValue()
@@ -122,6 +123,17 @@ var c14Codec = probe.Define("C14", "codec", func(t *rapid.T) c14In {
 	var w3 []byte
 	if err := probe.Try(func() error { var x error; w3, x = back.Marshal(); return x }); err != nil || !bytes.Equal(w, w3) {
 		return probe.Fail("re-encoding the decoded packet gives different bytes (%v)", err)
+	}
+	// the decoded packet is still the same unmodified packet after the receive buffer has been reused
+	for i := range rx {
+		rx[i] = ^rx[i]
+	}
+	var w4 []byte
+	if err := probe.Try(func() error { var x error; w4, x = back.Marshal(); return x }); err != nil || !bytes.Equal(w, w4) {
+		return probe.Fail("encoding the unmodified decoded packet again, after the receive buffer was overwritten, gives different bytes (%v)", err)
+	}
+	if got2, err := bridge.FromLibEAP(back); err != nil || !got2.Equal(e) {
+		return probe.Fail("values read back from the decoded packet changed when the receive buffer was overwritten")
 	}
 	labels := []string{"eap:" + e.Kind}
 	nontrivial := false
